@@ -84,6 +84,9 @@ type msgSpec struct {
 	RPC    string            `json:"rpc"` // "" = StateChange
 	Event  int32             `json:"event"`
 	Fields map[string]string `json:"fields"`
+	// Upd: when set, every method is scripted to succeed and to return exactly this update list
+	// ('+'-separated container ids, "" = nil) instead of its own tokens
+	Upd *string `json:"updates,omitempty"`
 }
 
 type replyObs struct {
@@ -189,7 +192,9 @@ func driveDispatch(c *hx.Ctx) error {
 		"absent, fails, or returns 0 / the exact mask / a random proper subset / the mask plus one unimplemented valid event / one unimplemented " +
 		"event alone / plus bit 14 / plus bit 31 / plus the sign bit / a random 31-bit mask; stub.New's verdict for each type. disp cases: in " +
 		"configured sessions every one of the 13 events / requests is sent twice (handlers scripted to succeed, then to fail) plus StateChange with " +
-		"event numbers no case exists for (0, 14, 99, and the four RPC-carried events) and messages with absent fields; pod, container and both " +
+		"event numbers no case exists for (0, 14, 99, and the four RPC-carried events) and messages with absent fields, and for CreateContainer / UpdateContainer / StopContainer six more deliveries each whose handler returns the update " +
+		"list nil, [other], [other1 other2], [own], [other own other2], [own other own] (own = the id of the request's container): the runtime end must " +
+		"receive exactly that list, element by element, and the plugin's own slice must still read the same after the call; pod, container and both " +
 		"resource sets carry distinct tokens, all 13 methods are scripted with distinct adjustment / update / error tokens; recorded: the methods " +
 		"that ran with the tokens they saw, and the reply or error the runtime end got. non-trivial cfg case: the hook returned a mask (clamping " +
 		"exercised); non-trivial disp case: a handler ran. sess cases (restart stream): ONE stub.Stub object is started two or three times " +
@@ -423,6 +428,19 @@ func (d *dispDriver) messages(full bool) []msgSpec {
 		}
 		out = append(out, msgSpec{RPC: h.rpc, Event: int32(h.event), Fields: fieldsOf(h.args, drop)})
 	}
+	// update lists that name the request's own container: alone, among others, repeated; and nil, one, two others
+	for _, h := range handlerDefs {
+		if !h.update {
+			continue
+		}
+		for v := 0; v < 6; v++ {
+			f := fieldsOf(h.args, "")
+			own := f["Container"]
+			o1, o2 := tok("x"), tok("y")
+			upd := [...]string{"", o1, o1 + "+" + o2, own, o1 + "+" + own + "+" + o2, own + "+" + o1 + "+" + own}[v]
+			out = append(out, msgSpec{RPC: h.rpc, Event: int32(h.event), Fields: f, Upd: &upd})
+		}
+	}
 	// StateChange with event numbers that have no case
 	for _, ev := range []int32{0, int32(api.Event_LAST), 99, int32(api.Event_CREATE_CONTAINER), int32(api.Event_UPDATE_CONTAINER),
 		int32(api.Event_STOP_CONTAINER), int32(api.Event_UPDATE_POD_SANDBOX)} {
@@ -437,8 +455,8 @@ var dispSeq int
 func (d *dispDriver) deliver(pt pluginType, co *core, s *session, m msgSpec) error {
 	c := d.c
 	dispSeq++
-	fail := dispSeq%2 == 0
-	empty := dispSeq%7 == 3 // handlers returning nothing at all
+	fail := dispSeq%2 == 0 && m.Upd == nil
+	empty := dispSeq%7 == 3 && m.Upd == nil // handlers returning nothing at all
 	seq := fmt.Sprintf("%d", dispSeq)
 	beh := map[string]hres{}
 	for _, h := range handlerDefs {
@@ -446,6 +464,9 @@ func (d *dispDriver) deliver(pt pluginType, co *core, s *session, m msgSpec) err
 		r := hres{Adjust: "A:" + h.method + ":" + seq, Update: "U:" + h.method + ":" + seq + "+V"}
 		if empty {
 			r.Adjust, r.Update = "", ""
+		}
+		if m.Upd != nil {
+			r.Update = *m.Upd
 		}
 		if fail {
 			r.Err = "E:" + h.method + ":" + seq
@@ -521,12 +542,16 @@ func (d *dispDriver) deliver(pt pluginType, co *core, s *session, m msgSpec) err
 	if rep.IsErr {
 		replyTerm = "(RErr " + coqfmt.Str(rep.Err) + ")"
 	}
-	term := fmt.Sprintf("{| dc_plugin := %s; dc_carrier := %s; dc_event := %s; dc_fields := %s; dc_seq := %s; dc_fail := %s; dc_empty := %s; dc_inv := %s; dc_reply := %s |}",
-		coqfmt.N(uint64(pt.mask)), carrier, coqfmt.Z(int64(m.Event)), coqfmt.List(fl), coqfmt.Str(seq), coqfmt.Bool(fail), coqfmt.Bool(empty),
+	term := fmt.Sprintf("{| dc_plugin := %s; dc_carrier := %s; dc_event := %s; dc_fields := %s; dc_seq := %s; dc_fail := %s; dc_empty := %s; dc_upd := %s; dc_inv := %s; dc_reply := %s |}",
+		coqfmt.N(uint64(pt.mask)), carrier, coqfmt.Z(int64(m.Event)), coqfmt.List(fl), coqfmt.Str(seq), coqfmt.Bool(fail), coqfmt.Bool(empty), coqfmt.OptStr(m.Upd),
 		coqfmt.List(il), replyTerm)
 	d.dispS.Add(term, raw)
 
 	// the oracle in Go
+	if d := co.keptIntact(); d != "" {
+		// Go aliasing, which the pure model cannot express: the stub rewrote a slice that belongs to the plugin
+		c.ImplFail("disp", fmt.Sprintf("C15: delivery of %s/event %d: %s (the handler's updates are not passed on unchanged: the stub modified them in place)", m.RPC, m.Event, d), raw)
+	}
 	wantInv, wantRep := expectedDelivery(pt.mask, m, beh)
 	if !sameDelivery(inv, rep, wantInv, wantRep) {
 		c.ImplFail("disp", fmt.Sprintf("C15: delivery of %s/event %d: invocations %v reply %+v, the property demands %v %+v",
